@@ -1,6 +1,8 @@
 (* C03 -- table bodies are exactly tiled by self-describing entries; counts agree. Statements only. *)
 From Coq Require Import NArith List.
 From ACPI Require Import Lib.Bytes Lib.Sx Lib.Machine Impl.Table Spec.Layout Proofs.TableP Proofs.WalkP Proofs.Tables Proofs.Registry.
+From ACPI Require Import Impl.Madt Impl.Srat Impl.Mcfg Impl.Xsdt Spec.MadtS Spec.SratS Spec.McfgS Spec.XsdtS
+  Proofs.MadtRefP Proofs.SratRefP Proofs.MadtWalkRefP Proofs.SratWalkRefP Proofs.McfgWalkRefP Proofs.XsdtWalkRefP.
 Import ListNotations.
 Open Scope N_scope.
 
@@ -28,5 +30,38 @@ Theorem c03_tables :
       t_cnt s = N.of_nat (length (t_ents s)).
 Proof. intros W _. exact (walktable_tiles W). Qed.
 
+(* ------------------------------------------------------------------------------------------------
+   The run-time judgement itself as a theorem.  [c03_judge ts ctor img ops] is the boolean the check evaluates on the
+   IMPLEMENTATION's bytes: the Spec walker started at the table's first-entry offset finds exactly the (type, length) list of
+   the entries added by [ops], lands on the end of the image, and the count fields hold.  For every history inside the
+   reference's domain it holds of the reference image, and (through the C04 refinement) of the model's image. *)
+Theorem c03_reference_images_tile :
+  (forall ctor ops r, ts_image madt_spec ctor ops = Some r -> c03_judge madt_spec ctor r ops = true) /\
+  (forall ctor ops r, ts_image srat_spec ctor ops = Some r -> c03_judge srat_spec ctor r ops = true) /\
+  (forall ctor ops r, ts_image mcfg_spec ctor ops = Some r -> c03_judge mcfg_spec ctor r ops = true) /\
+  (forall ctor ops r, ts_image xsdt_spec ctor ops = Some r -> c03_judge xsdt_spec ctor r ops = true).
+Proof.
+  repeat split; [exact madt_reference_tiles | exact srat_reference_tiles | exact mcfg_reference_tiles | exact xsdt_reference_tiles].
+Qed.
+
+Theorem c03_model_images_tile :
+  (forall md ctor ops r, ts_image madt_spec ctor ops = Some r -> madt_ops_wf ops -> N.of_nat (length r) < 2 ^ 32 ->
+     exists s0 s, madt_new ctor = Some s0 /\ run_adds madt_addition md s0 ops = Some s /\
+                  c03_judge madt_spec ctor (tbl_image s) ops = true) /\
+  (forall md ctor ops r, ts_image srat_spec ctor ops = Some r -> srat_ops_wf ops -> N.of_nat (length r) < 2 ^ 32 ->
+     exists s0 s, srat_new ctor = Some s0 /\ run_adds srat_addition md s0 ops = Some s /\
+                  c03_judge srat_spec ctor (tbl_image s) ops = true) /\
+  (forall md ctor ops r, ts_image mcfg_spec ctor ops = Some r -> N.of_nat (length r) < 2 ^ 32 ->
+     exists s0 s, mcfg_new ctor = Some s0 /\ run_adds mcfg_addition md s0 ops = Some s /\
+                  c03_judge mcfg_spec ctor (tbl_image s) ops = true) /\
+  (forall md ctor ops r, ts_image xsdt_spec ctor ops = Some r -> N.of_nat (length r) < 2 ^ 32 ->
+     exists s0 s, xsdt_new ctor = Some s0 /\ run_adds xsdt_addition md s0 ops = Some s /\
+                  c03_judge xsdt_spec ctor (tbl_image s) ops = true).
+Proof.
+  repeat split; [exact madt_model_tiles | exact srat_model_tiles | exact mcfg_model_tiles | exact xsdt_model_tiles].
+Qed.
+
 Print Assumptions c03_walker_tiles.
 Print Assumptions c03_tables.
+Print Assumptions c03_reference_images_tile.
+Print Assumptions c03_model_images_tile.
